@@ -1,20 +1,21 @@
 """Run the quick check(s) of every kept seed against a scratch worktree with the seed's patch applied
 (VERIF_REPO=<worktree>; /repo is never touched) and record what each check reports in meta.json."""
 import json, glob, os, subprocess, sys, time
-WT = "/tmp/wt/matrix"
+WT = os.environ.get("MATRIX_WT", "/tmp/wt/matrix")
+SHARD, NSH = int(os.environ.get("MATRIX_SHARD", "0")), int(os.environ.get("MATRIX_NSHARDS", "1"))
 def sh(c, cwd=None, env=None, t=7200):
     p = subprocess.run(c, shell=True, cwd=cwd, capture_output=True, text=True, timeout=t, env=env); return p.returncode, p.stdout, p.stderr
 if not os.path.isdir(WT):
     print(sh(f"git -C /repo worktree add -q --detach {WT} HEAD"))
 only = sys.argv[1:] 
-for mp in sorted(glob.glob("/verif/seeded/*/meta.json")):
+ALL = [mp for mp in sorted(glob.glob("/verif/seeded/*/meta.json")) if not only or any(o in mp for o in only)]
+for mp in ALL[SHARD::NSH]:
     meta = json.load(open(mp))
-    if only and not any(o in meta["id"] for o in only): continue
     d = os.path.dirname(mp)
     sh("git checkout -- . && git clean -fdq", cwd=WT)
     rc, o, e = sh(f"git apply {d}/patch.diff", cwd=WT)
     if rc: print(meta["id"], "PATCH FAILS", e[:200]); continue
-    env = dict(os.environ, VERIF_REPO=WT, VERIF_TIER="quick", VERIF_EVIDENCE_DIR="/tmp/wt/matrix_evidence")
+    env = dict(os.environ, VERIF_REPO=WT, VERIF_TIER="quick", VERIF_EVIDENCE_DIR=f"/tmp/wt/matrix_evidence{SHARD}")
     res = {}
     props = sorted(set([meta["breaks_property"]] + meta.get("caught_by_quick_checks", [])))
     for p in props:
@@ -22,8 +23,7 @@ for mp in sorted(glob.glob("/verif/seeded/*/meta.json")):
         rc, o, e = sh(f"/verif/.venv/bin/python /verif/checks/{p.lower()}.py", cwd="/verif", env=env)
         nv = sum(1 for l in o.splitlines() if l.startswith("VIOLATION"))
         res[p] = {"exit": rc, "violations": nv, "secs": round(time.time() - t0)}
-    meta["matrix"] = res
-    meta["caught_by_quick_checks"] = sorted(p for p, r in res.items() if r["exit"] == 1 and r["violations"] > 0)
-    json.dump(meta, open(mp, "w"), indent=1)
+    # written beside meta.json (merged later by tools/seed_merge.py) so that a concurrent seed_suites.py run cannot lose it
+    json.dump({"matrix": res, "caught_by_quick_checks": sorted(p for p, r in res.items() if r["exit"] == 1 and r["violations"] > 0)}, open(os.path.join(d, "matrix.json"), "w"), indent=1)
     print(meta["id"], res, flush=True)
 sh("git checkout -- . && git clean -fdq", cwd=WT)
